@@ -211,7 +211,11 @@ const AXES: [&str; 12] = [
 
 struct ExprGen<'a> {
     rng: &'a mut StdRng,
+    /// scalar-only expressions over a richer value pool (C09)
+    scalar: bool,
 }
+
+const SC_STRINGS: [&str; 16] = ["", " ", "a", "ab", "日本", "é😀", " 12 ", "-0.5", "1e3", "+1", ".5", "5.", "Infinity", "NaN", "12345", " a  b "];
 
 impl<'a> ExprGen<'a> {
     fn pick<'b>(&mut self, xs: &[&'b str]) -> &'b str {
@@ -293,7 +297,23 @@ impl<'a> ExprGen<'a> {
     }
 
     fn num_expr(&mut self, depth: usize) -> J {
-        let r = self.rng.gen_range(0..12);
+        let mut r = self.rng.gen_range(0..12);
+        if self.scalar && (depth == 0 || r < 4) && self.rng.gen_bool(0.5) {
+            let n = match self.rng.gen_range(0..8) {
+                0 => json!({"cls": "nan", "v": 0}),
+                1 => json!({"cls": "pinf", "v": 0}),
+                2 => json!({"cls": "ninf", "v": 0}),
+                3 => json!({"cls": "nzero", "v": 0}),
+                4 => json!({"cls": "fin", "v": -512 * self.rng.gen_range(1..8)}),
+                5 => json!({"cls": "fin", "v": 256 * self.rng.gen_range(1..40)}),
+                6 => json!({"cls": "fin", "v": 1024 * self.rng.gen_range(5..2000)}),
+                _ => json!({"cls": "fin", "v": self.rng.gen_range(1..1024)}),
+            };
+            return json!({"t": "num", "n": n});
+        }
+        if self.scalar && (r == 4 || r == 5) {
+            r = 7;
+        }
         if depth == 0 || r < 4 {
             return match self.rng.gen_range(0..6) {
                 0 => num(512 * self.rng.gen_range(0..7)),
@@ -318,7 +338,13 @@ impl<'a> ExprGen<'a> {
     }
 
     fn str_expr(&mut self, depth: usize) -> J {
-        let r = self.rng.gen_range(0..12);
+        let mut r = self.rng.gen_range(0..12);
+        if self.scalar && (depth == 0 || r < 3) {
+            return lit(SC_STRINGS[self.rng.gen_range(0..SC_STRINGS.len())]);
+        }
+        if self.scalar && (r == 5 || r == 6) {
+            r = 3;
+        }
         if depth == 0 || r < 3 {
             return lit(self.pick(&["", "1", "12", "ab", "a", "b", " ", "s", "2"]));
         }
@@ -356,12 +382,14 @@ impl<'a> ExprGen<'a> {
                 func(f, vec![self.str_expr(depth - 1), self.str_expr(depth - 1)])
             }
             8 => bin(self.pick(&["and", "or"]), self.any_expr(depth - 1), self.any_expr(depth - 1)),
+            _ if self.scalar => bin(self.pick(&["=", "!=", "<", ">="]), self.num_expr(depth - 1), self.str_expr(depth - 1)),
             _ => bin(self.pick(&["=", "!="]), self.nodeset(depth - 1, true), self.any_expr(depth - 1)),
         }
     }
 
     fn any_expr(&mut self, depth: usize) -> J {
-        match self.rng.gen_range(0..7) {
+        let lo = if self.scalar { 3 } else { 0 };
+        match self.rng.gen_range(lo..7) {
             0..=2 => self.nodeset(depth, true),
             3 => self.num_expr(depth),
             4 => self.str_expr(depth),
@@ -668,6 +696,35 @@ pub fn record(args: &[String]) -> i32 {
     }
     let seed: u64 = arg_value(args, "--seed").and_then(|s| s.parse().ok()).unwrap_or(1);
     let n: usize = arg_value(args, "--n").and_then(|s| s.parse().ok()).unwrap_or(1000);
+    if arg_flag(args, "--scalar") {
+        // C09: random scalar applications on the document <r/>
+        let mut rng = StdRng::seed_from_u64(seed);
+        let tree = json!({"prolog": [], "nodes": [
+            {"k": "root", "p": 0, "pre": [], "loc": [], "uri": [], "v": [], "raw": []},
+            {"k": "elem", "p": 1, "pre": [], "loc": [114], "uri": [], "v": [], "raw": []}]});
+        let text = ser(&tree);
+        let doc = match load_doc(&text, &tree) {
+            Ok(d) => d,
+            Err(_) => return 2,
+        };
+        for _ in 0..n {
+            let depth = rng.gen_range(1..4);
+            let ast = {
+                let mut g = ExprGen { rng: &mut rng, scalar: true };
+                g.any_expr(depth)
+            };
+            let st = Style { abbrev: true, ws: rng.gen_range(0..3), parens: rng.gen_bool(0.5) };
+            let styles = vec![CANON.json(), st.json()];
+            let sp = vec![unparse(&ast, &CANON), unparse(&ast, &st)];
+            let obs: Vec<J> = sp.iter().map(|e| eval_fresh(&doc, e, &json!([]))).collect();
+            let ev = json!({"k": "xp", "fam": "rnd", "tree": tree, "text": string_to_cps(&text), "binds": [],
+                            "ast": ast, "styles": styles, "sp": sp.iter().map(|s| string_to_cps(s)).collect::<Vec<_>>(),
+                            "obs": obs, "mismatch": doc.mismatch.clone().unwrap_or_default()});
+            writeln!(wtr, "{}", ev).unwrap();
+        }
+        wtr.flush().unwrap();
+        return 0;
+    }
     let groups: usize = arg_value(args, "--groups").and_then(|s| s.parse().ok()).unwrap_or(0);
     let mut rng = StdRng::seed_from_u64(seed);
     let mut made = 0;
@@ -693,7 +750,7 @@ pub fn record(args: &[String]) -> i32 {
             }
             let depth = rng.gen_range(1..5);
             let ast = {
-                let mut g = ExprGen { rng: &mut rng };
+                let mut g = ExprGen { rng: &mut rng, scalar: false };
                 g.any_expr(depth)
             };
             let st = Style { abbrev: rng.gen_bool(0.6), ws: rng.gen_range(0..3), parens: rng.gen_bool(0.3) };
@@ -718,7 +775,7 @@ pub fn record(args: &[String]) -> i32 {
                 } else {
                     let depth = rng.gen_range(1..4);
                     let ast = {
-                        let mut g = ExprGen { rng: &mut rng };
+                        let mut g = ExprGen { rng: &mut rng, scalar: false };
                         g.nodeset(depth, true)
                     };
                     ops.push(unparse(&ast, &Style { abbrev: rng.gen_bool(0.5), ws: 0, parens: false }));
